@@ -3,7 +3,3 @@ package main
 import "verif/sim/simkit"
 
 type faultT = simkit.Fault
-
-func registerBW() {}
-func bwC12Legs() []Leg { return nil }
-func bwC19Legs() []Leg { return nil }
